@@ -89,6 +89,7 @@ class ExcelCompiler:
         self.range_todos = []
 
         self.extra_data = None
+        self._values_changed = False
         self.conditional_formats = {}
         self._formula_cells_dict = {}
         self._plugin_modules = plugins
@@ -457,6 +458,10 @@ class ExcelCompiler:
             # need to be able to 'set' an empty cell, set to not None
             cell_or_range.value = value
 
+            # results stored in the workbook are no longer valid for
+            # formulas that are loaded from now on
+            self._values_changed = True
+
             # reset the node + its dependencies
             if not self.cycles:
                 self._reset(cell_or_range, force=True)
@@ -729,9 +734,15 @@ class ExcelCompiler:
             # stick in queue to add edges
             self.graph_todos.append(node)
 
+        def stored_value(value, formula):
+            # once a value was set, a stored formula result may be stale
+            stale = formula and getattr(self, '_values_changed', False)
+            return None if stale else value
+
         def build_cell(excel_cell):
-            a_cell = self.Cell(excel_cell.address, value=excel_cell.values,
-                               formula=excel_cell.formula, excel=self.excel)
+            a_cell = self.Cell(
+                excel_cell.address, formula=excel_cell.formula, excel=self.excel,
+                value=stored_value(excel_cell.values, excel_cell.formula))
             self.cell_map[str(excel_cell.address)] = a_cell
             return [a_cell]
 
@@ -743,7 +754,8 @@ class ExcelCompiler:
             if isinstance(excel_range.formula, tuple):
                 for addr, value, formula in a_range.cells_to_build(excel_range):
                     if addr.address not in self.cell_map:
-                        a_cell = self.Cell(addr, value, formula, self.excel)
+                        a_cell = self.Cell(
+                            addr, stored_value(value, formula), formula, self.excel)
                         self.cell_map[addr.address] = a_cell
                         added.append(a_cell)
             else:
